@@ -573,6 +573,10 @@ def run(ctx: Context, rep) -> None:
     # nothing read from the dataset's files / the environment is memoised
     from sa.rules import shared as _shm
     _shm.check_no_memo(ctx, rep, "C06.memo")
+    # re-running create on an existing dataset refuses before any effect
+    # (same check as C08.create)
+    from sa.rules import shared as _sh06
+    _sh06.share_rules(ctx, rep, "c08", {"C08.create": "C06.create"})
 
 _U = "src/sedpack/io/utils.py"
 _SM = "src/sedpack/io/shard_file_metadata.py"
